@@ -135,6 +135,25 @@ def run(tier, seed):
         arr = _array.array(tc, [r_.choice([0.5, -1.25, 1e10, 3.0]) for _ in range(r_.randint(0, 3))])
         T = r_.choice(["int", "long", "float", "double"])
         cases.append(({"type": "array", "items": T}, arr, "typed-array:" + tc + "/" + T, False, False))
+    # absent fields whose default passes parse_schema's (shallow) check but is not a datum of the field's type — and, as
+    # controls, defaults that are: an absent field conforms iff its default does
+    sub = {"type": "record", "name": "Sub", "fields": [{"name": "x", "type": "int"}, {"name": "y", "type": "string"}]}
+    for ftype, dflt in (({"type": "array", "items": "int"}, ["x"]), ({"type": "array", "items": "int"}, [1, 2]), ({"type": "array", "items": "int"}, []),
+                        ({"type": "map", "values": "long"}, {"k": "v"}), ({"type": "map", "values": "long"}, {"k": 1}),
+                        ({"type": "array", "items": {"type": "array", "items": "int"}}, [[1, "x"]]), ({"type": "array", "items": "string"}, [1]),
+                        (sub, {"x": 1}), (sub, {"x": 1, "y": "s"}), (sub, {"x": "no", "y": "s"}), (sub, {}),
+                        ({"type": "array", "items": sub}, [{"x": 1}]), ({"type": "map", "values": {"type": "array", "items": "int"}}, {"k": [None]}),
+                        ({"type": "array", "items": ["null", "int"]}, ["x"]), ({"type": "array", "items": ["null", "int"]}, [None, 3])):
+        for pos in ("top", "nested", "array"):
+            rec_ = {"type": "record", "name": "HasDefault", "fields": [{"name": "id", "type": "long"}, {"name": "d", "type": copy.deepcopy(ftype), "default": copy.deepcopy(dflt)},
+                                                                      {"name": "z", "type": "string"}]}
+            datum = {"id": 1, "z": "z"}
+            if pos == "nested":
+                rec_, datum = {"type": "record", "name": "Outer", "fields": [{"name": "o", "type": rec_}]}, {"o": datum}
+            elif pos == "array":
+                rec_, datum = {"type": "array", "items": rec_}, [datum, dict(datum, id=2)]
+            for strict in (False, True):
+                cases.append((rec_, datum, "absent-field-default", strict, False))
     reqs = []
     for (s, v, kind, strict, dtn) in cases:
         ws, wv = to_wire(s), to_wire(v)
